@@ -530,11 +530,9 @@ fn convert_array8_to_type(src: &Array8, lg_config_k: u8, target_type: HllType) -
                 }
             }
 
-            let src_est = src.estimate();
-            let arr6_est = array6.estimate();
-            if src_est > arr6_est {
-                array6.set_hip_accum(src_est);
-            }
+            // Carry over the estimator mode and HIP accumulator so that the estimate and
+            // bounds do not depend on the requested target type.
+            array6.set_estimator_state(src.is_out_of_order(), src.hip_accum());
 
             HllSketch::from_mode(lg_config_k, Mode::Array6(array6))
         }
@@ -548,11 +546,9 @@ fn convert_array8_to_type(src: &Array8, lg_config_k: u8, target_type: HllType) -
                 }
             }
 
-            let src_est = src.estimate();
-            let arr4_est = array4.estimate();
-            if src_est > arr4_est {
-                array4.set_hip_accum(src_est);
-            }
+            // Carry over the estimator mode and HIP accumulator so that the estimate and
+            // bounds do not depend on the requested target type.
+            array4.set_estimator_state(src.is_out_of_order(), src.hip_accum());
 
             HllSketch::from_mode(lg_config_k, Mode::Array4(array4))
         }
